@@ -10,9 +10,9 @@ namespace Kap.C07
 theorem nodeStep_inAborted_mono {env a nd child r} (h : nodeStep env a nd child = some r) (hd : nd.inAborted = true) : r.nd.inAborted = true := by
   nstep h <;> simp_all
 
-theorem nodeStep_stopping {env a nd child r} (h : nodeStep env a nd child = some r) (hk : isAlert nd.kind = false) :
-    r.nd.stopping = nd.stopping := by
-  nstep h <;> simp_all [isAlert]
+theorem nodeStep_stopping {env a nd child r} (h : nodeStep env a nd child = some r) (hk : isAlert nd.kind = false)
+    (hi : isInflux nd.kind = false) : r.nd.stopping = nd.stopping := by
+  nstep h <;> simp_all [isAlert, isInflux]
 
 theorem nodeStep_helperDone_mono {env a nd child r} (h : nodeStep env a nd child = some r) (hd : nd.helperDone = true) : r.nd.helperDone = true := by
   nstep h <;> simp_all
@@ -76,11 +76,11 @@ structure DInv (s : State) : Prop where
   first : ∀ nd, s.nodes[0]? = some nd →
     (nd.inClosed = true → s.registered = false) ∧ (5 ≤ rank s.ph → nd.inClosed = true ∨ nd.inAborted = true)
   doneP : ∀ (k : Nat) (nd : Nd), s.nodes[k]? = some nd → doneBy s.ph k = true → nd.done = true
-  stopP : ∀ (k : Nat) (nd : Nd), s.nodes[k]? = some nd → (isInflux nd.kind || isUdf nd.kind) = true →
+  stopP : ∀ (k : Nat) (nd : Nd), s.nodes[k]? = some nd → (oldInflux nd.kind || isUdf nd.kind) = true →
     (nd.stopping = true ↔ abortedBy s.ph k = true)
-  joinP : ∀ (k : Nat) (nd : Nd), s.nodes[k]? = some nd → isInflux nd.kind = true → joinedBy s.ph k = true → nd.helperDone = true
+  joinP : ∀ (k : Nat) (nd : Nd), s.nodes[k]? = some nd → oldInflux nd.kind = true → joinedBy s.ph k = true → nd.helperDone = true
   idxV : ∀ i, s.ph.idx = some i → i < s.nodes.length
-  flK : ∀ (i : Nat) (nd : Nd), s.ph = .flushed i → s.nodes[i]? = some nd → isInflux nd.kind = true
+  flK : ∀ (i : Nat), s.ph ≠ .flushed i ∧ s.ph ≠ .wbWait i
   lk : rank s.ph ≤ 3 → s.lockHeld = false
   ets : 6 ≤ rank s.ph → s.etStopping = true
   thr : 8 ≤ rank s.ph → s.thrDone = true
@@ -89,7 +89,7 @@ structure DInv (s : State) : Prop where
   fh1 : s.forkHand ≤ 1 ∧ s.forkLoop ≤ 1
 
 theorem dinv_nodeAct {cfg} {s s' : State} {i : Nat} {a : NAct} (h : step cfg s (.node i a) = some s')
-    (hleak : cfg.alertLeak = false) (hd : DInv s) : DInv s' := by
+    (hleak : cfg.alertLeak = false) (hea : cfg.influxEarlyAbort = false) (hd : DInv s) : DInv s' := by
   simp only [step] at h
   split at h
   case h_2 => simp at h
@@ -99,7 +99,7 @@ theorem dinv_nodeAct {cfg} {s s' : State} {i : Nat} {a : NAct} (h : step cfg s (
   have hDnd := hd.nodes i nd g1
   have hnodes' : s'.nodes = ns := by rw [← h]
   have hph : s'.ph = s.ph := by rw [← h]
-  have hr : DNode r.nd := nodeStep_DNode g2 hDnd (by simp [env, hleak])
+  have hr : DNode r.nd := nodeStep_DNode g2 hDnd (by simp [env, hleak]) (by simp [env, hea])
   -- facts about the child
   have hchild : ∀ c x, s.nodes[i+1]? = some c → r.child = some x →
       DNode x ∧ DPair r.nd x ∧ x.done = c.done ∧ x.kind = c.kind ∧ x.stopping = c.stopping ∧ x.helperDone = c.helperDone ∧
@@ -170,8 +170,9 @@ theorem dinv_nodeAct {cfg} {s s' : State} {i : Nat} {a : NAct} (h : step cfg s (
     rcases hnode k x hk with ⟨_, _, h0⟩ | ⟨rfl, rfl⟩ | ⟨rfl, c, hc1, e1, _⟩
     · exact hd.stopP k x h0 hkind
     · rw [nodeStep_kind g2] at hkind
-      have hna : isAlert nd.kind = false := by cases hk : nd.kind <;> simp_all [isAlert, isInflux, isUdf]
-      rw [nodeStep_stopping g2 hna]
+      have hna : isAlert nd.kind = false := by cases hk : nd.kind <;> simp_all [isAlert, oldInflux, isUdf]
+      have hni : isInflux nd.kind = false := by cases hk : nd.kind <;> simp_all [isInflux, oldInflux, isUdf]
+      rw [nodeStep_stopping g2 hna hni]
       exact hd.stopP k nd g1 hkind
     · have hf := hchild c x hc1 e1
       rw [hf.2.2.2.1] at hkind
@@ -188,12 +189,7 @@ theorem dinv_nodeAct {cfg} {s s' : State} {i : Nat} {a : NAct} (h : step cfg s (
       rw [hf.2.2.2.2.2.1]
       exact hd.joinP _ c hc1 hkind hj
   · intro j hj; rw [hph] at hj; rw [hnodes', g4]; exact hd.idxV j hj
-  · intro k x hfl hk
-    rw [hnodes'] at hk; rw [hph] at hfl
-    rcases hnode k x hk with ⟨_, _, h0⟩ | ⟨rfl, rfl⟩ | ⟨rfl, c, hc1, e1, _⟩
-    · exact hd.flK k x hfl h0
-    · rw [nodeStep_kind g2]; exact hd.flK k nd hfl g1
-    · rw [(hchild c x hc1 e1).2.2.2.1]; exact hd.flK _ c hfl hc1
+  · rw [hph]; exact hd.flK
   · rw [hph]; intro h3; have := hd.lk h3; rw [← h]; exact this
   · rw [hph]; intro h3; have := hd.ets h3; rw [← h]; exact this
   · rw [hph]; intro h3; have := hd.thr h3; rw [← h]; exact this
@@ -213,14 +209,14 @@ theorem dinv_modify_at {s s' : State} (hd : DInv s) (i : Nat) (f : Nd → Nd)
     (hf : ∀ nd, (f nd).done = nd.done ∧ (f nd).kind = nd.kind ∧ (f nd).helperDone = nd.helperDone ∧
       (f nd).inAborted = nd.inAborted ∧ (f nd).inClosed = nd.inClosed)
     (hD : ∀ nd, s.nodes[i]? = some nd → DNode (f nd))
-    (hstop : ∀ nd, s.nodes[i]? = some nd → (isInflux nd.kind || isUdf nd.kind) = true →
+    (hstop : ∀ nd, s.nodes[i]? = some nd → (oldInflux nd.kind || isUdf nd.kind) = true →
       ((f nd).stopping = true ↔ abortedBy s'.ph i = true))
     (hab : ∀ k, k ≠ i → abortedBy s'.ph k = abortedBy s.ph k)
     (hdone : ∀ k, doneBy s'.ph k = doneBy s.ph k)
-    (hjoin : ∀ k nd, s.nodes[k]? = some nd → isInflux nd.kind = true → joinedBy s'.ph k = true → joinedBy s.ph k = true)
+    (hjoin : ∀ k nd, s.nodes[k]? = some nd → oldInflux nd.kind = true → joinedBy s'.ph k = true → joinedBy s.ph k = true)
     (hreg : s'.registered = s.registered) (hrank : rank s'.ph = rank s.ph)
     (hidx : ∀ j, s'.ph.idx = some j → j < s.nodes.length)
-    (hfl : ∀ j nd, s'.ph = .flushed j → s.nodes[j]? = some nd → isInflux nd.kind = true)
+    (hfl : ∀ j, s'.ph ≠ .flushed j ∧ s'.ph ≠ .wbWait j)
     (hglob : s'.lockHeld = s.lockHeld ∧ s'.etStopping = s.etStopping ∧ s'.thrDone = s.thrDone ∧ s'.forkRL = s.forkRL ∧
       s'.forkHand = s.forkHand ∧ s'.forkLoop = s.forkLoop)
     (hwf : s'.ph ≠ .waitFork) : DInv s' := by
@@ -270,7 +266,7 @@ theorem dinv_modify_at {s s' : State} (hd : DInv s) (i : Nat) (f : Nd → Nd)
     · rw [hab k hne]; exact hd.stopP k x h0 hkind
   · intro k x hk hkind hj
     obtain ⟨x0, h0, hx⟩ := hget k x hk
-    have hk0 : isInflux x0.kind = true := by
+    have hk0 : oldInflux x0.kind = true := by
       rcases hx with ⟨_, rfl⟩ | ⟨_, rfl⟩
       · rw [(hf x0).2.1] at hkind; exact hkind
       · exact hkind
@@ -279,12 +275,7 @@ theorem dinv_modify_at {s s' : State} (hd : DInv s) (i : Nat) (f : Nd → Nd)
     · rw [(hf x0).2.2.1]; exact this
     · exact this
   · intro j hj; rw [hn, modifyNth_length]; exact hidx j hj
-  · intro j x hfl' hk
-    obtain ⟨x0, h0, hx⟩ := hget j x hk
-    have := hfl j x0 hfl' h0
-    rcases hx with ⟨_, rfl⟩ | ⟨_, rfl⟩
-    · rw [(hf x0).2.1]; exact this
-    · exact this
+  · exact hfl
   · rw [hrank, hglob.1]; exact hd.lk
   · rw [hrank, hglob.2.1]; exact hd.ets
   · rw [hrank, hglob.2.2.1]; exact hd.thr
@@ -297,10 +288,10 @@ theorem dinv_phase {s s' : State} (hd : DInv s) (hn : s'.nodes = s.nodes)
     (hfirst : ∀ nd, s.nodes[0]? = some nd →
       (nd.inClosed = true → s'.registered = false) ∧ (5 ≤ rank s'.ph → nd.inClosed = true ∨ nd.inAborted = true))
     (hdone : ∀ k nd, s.nodes[k]? = some nd → doneBy s'.ph k = true → nd.done = true)
-    (hstop : ∀ k nd, s.nodes[k]? = some nd → (isInflux nd.kind || isUdf nd.kind) = true → abortedBy s'.ph k = abortedBy s.ph k)
-    (hjoin : ∀ k nd, s.nodes[k]? = some nd → isInflux nd.kind = true → joinedBy s'.ph k = true → nd.helperDone = true)
+    (hstop : ∀ k nd, s.nodes[k]? = some nd → (oldInflux nd.kind || isUdf nd.kind) = true → abortedBy s'.ph k = abortedBy s.ph k)
+    (hjoin : ∀ k nd, s.nodes[k]? = some nd → oldInflux nd.kind = true → joinedBy s'.ph k = true → nd.helperDone = true)
     (hidx : ∀ j, s'.ph.idx = some j → j < s.nodes.length)
-    (hfl : ∀ j, s'.ph ≠ .flushed j)
+    (hfl : ∀ j, s'.ph ≠ .flushed j ∧ s'.ph ≠ .wbWait j)
     (lk : rank s'.ph ≤ 3 → s'.lockHeld = false) (ets : 6 ≤ rank s'.ph → s'.etStopping = true)
     (thr : 8 ≤ rank s'.ph → s'.thrDone = true) (ic : s'.ph = .waitFork → s'.ingestClosed = true)
     (frl : s'.forkRL = true → s'.forkHand = 1 ∨ s'.forkLoop = 1) (fh1 : s'.forkHand ≤ 1 ∧ s'.forkLoop ≤ 1) : DInv s' := by
@@ -312,13 +303,14 @@ theorem dinv_phase {s s' : State} (hd : DInv s) (hn : s'.nodes = s.nodes)
   · intro k x hk hkind; rw [hn] at hk; rw [hstop k x hk hkind]; exact hd.stopP k x hk hkind
   · intro k x hk; rw [hn] at hk; exact hjoin k x hk
   · intro j hj; rw [hn]; exact hidx j hj
-  · intro j x hfl'; exact absurd hfl' (hfl j)
+  · exact hfl
 
 theorem DNode.closeIn {nd} (h : DNode nd) : DNode (closeIn nd) := by
   obtain ⟨h1, ab, fa, dn, fh, al, ah, ad, as, nh, ih, nl, nu, fd, bd⟩ := h
   constructor <;> simp_all [closeIn_inClosed] <;> (try grind)
 
-theorem dinv_stopStep {cfg} {s s' : State} (h : stopStep cfg s = some s') (hd : DInv s) : DInv s' := by
+theorem dinv_stopStep {cfg} {s s' : State} (h : stopStep cfg s = some s') (hea : cfg.influxEarlyAbort = false)
+    (hd : DInv s) : DInv s' := by
   cases hph : s.ph with
   | idle =>
     simp only [stopStep, hph] at h
@@ -415,7 +407,7 @@ theorem dinv_stopStep {cfg} {s s' : State} (h : stopStep cfg s = some s') (hd : 
         simpa [hph, abortedBy] using this
     · intro k x hk hkind hj; simp [joinedBy] at hj
     · intro j hj; simp [Ph.idx] at hj
-    · intro j x hfl; simp at hfl
+    · intro j; simp
     · simp [rank]
     · simp [rank]
     · simp [rank]
@@ -436,23 +428,7 @@ theorem dinv_stopStep {cfg} {s s' : State} (h : stopStep cfg s = some s') (hd : 
       · intro nd h0; have := hd.first nd h0; rw [hph] at this
         exact ⟨this.1, fun _ => this.2 (by simp [rank])⟩
       all_goals (simp_all [doneBy, abortedBy, joinedBy, Ph.idx, rank])
-  | wbWait i =>
-    simp only [stopStep, hph] at h
-    repeat' (first | contradiction | split at h)
-    all_goals (first | (simp at h; done) | (simp only [Option.some.injEq] at h; subst h))
-    rename_i ndi hndi hhd
-    have := hd.ets (by simp [hph, rank])
-    refine dinv_phase hd rfl ?_ ?_ ?_ ?_ ?_ ?_ ?_ ?_ ?_ ?_ hd.frl hd.fh1
-    · intro nd h0; have := hd.first nd h0; rw [hph] at this; exact ⟨this.1, fun _ => this.2 (by simp [rank])⟩
-    · intro k nd hk hdb; exact hd.doneP k nd hk (by simpa [hph, doneBy] using hdb)
-    · intro k nd hk _; simp [hph, abortedBy]
-    · intro k nd hk hki hj
-      simp only [joinedBy, decide_eq_true_eq] at hj
-      by_cases hki' : k = i
-      · subst hki'; rw [hndi] at hk; simp at hk; subst hk; exact hhd
-      · exact hd.joinP k nd hk hki (by simp [hph, joinedBy]; omega)
-    · intro j hj; simp [Ph.idx] at hj; subst hj; exact hd.idxV i (by simp [hph, Ph.idx])
-    all_goals (simp_all [Ph.idx, rank])
+  | wbWait i => exact absurd hph (hd.flK i).2
   | wait i =>
     simp only [stopStep, afterWait, hph] at h
     repeat' (first | contradiction | split at h)
@@ -491,32 +467,15 @@ theorem dinv_stopStep {cfg} {s s' : State} (h : stopStep cfg s = some s') (hd : 
       · intro k nd hk _; simp [hph, abortedBy]; exact hall k nd hk
       · intro k nd hk hki _; exact hd.joinP k nd hk hki (by simp [hph, joinedBy]; exact hall k nd hk)
       all_goals (simp_all [Ph.idx, rank])
-  | flushed i =>
-    simp only [stopStep, hph] at h
-    simp only [Option.some.injEq] at h; subst h
-    have hets := hd.ets (by simp [hph, rank])
-    refine dinv_modify_at hd i (fun nd => { nd with stopping := true }) rfl (by intro nd; simp) ?_ ?_ ?_ ?_ ?_ rfl ?_ ?_ ?_ ?_ ?_
-    · intro nd hi
-      have hk := hd.flK i nd hph hi
-      obtain ⟨h1, ab, fa, dn, fh, al, ah, ad, as, nh, ih, nl, nu, fd, bd⟩ := hd.nodes i nd hi
-      constructor <;> simp_all <;> (cases hkk : nd.kind <;> simp_all [isAlert, isInflux, isUdf])
-    · intro nd hi _; simp [abortedBy]
-    · intro k hk; simp [hph, abortedBy]; omega
-    · intro k; simp [hph, doneBy]
-    · intro k nd hk _ hj; simpa [hph, joinedBy] using hj
-    · simp [hph, rank]
-    · intro j hj; simp [Ph.idx] at hj; subst hj; exact hd.idxV i (by simp [hph, Ph.idx])
-    · intro j nd hfl; simp at hfl
-    · simp
-    · simp
+  | flushed i => exact absurd hph (hd.flK i).1
   | stopF i =>
     have hidx := hd.idxV i (by simp [hph, Ph.idx])
     cases hndi : s.nodes[i]? with
     | none => simp [stopStep, hph, hndi] at h
     | some ndi =>
     simp only [stopStep, hph, hndi] at h
-    have hother : (isInflux ndi.kind = false) → (isUdf ndi.kind = false) → s' = { s with ph := .wait i } → DInv s' := by
-      intro hnotinflux hnotudf e; subst e
+    have hother : (isUdf ndi.kind = false) → s' = { s with ph := .wait i } → DInv s' := by
+      intro hnotudf e; subst e
       have hets := hd.ets (by simp [hph, rank])
       refine dinv_phase hd rfl ?_ ?_ ?_ ?_ ?_ ?_ ?_ ?_ ?_ ?_ hd.frl hd.fh1
       · intro nd h0; have := hd.first nd h0; rw [hph] at this; exact ⟨this.1, fun _ => this.2 (by simp [rank])⟩
@@ -525,37 +484,18 @@ theorem dinv_stopStep {cfg} {s s' : State} (h : stopStep cfg s = some s') (hd : 
         simp only [hph, abortedBy]
         by_cases hki' : k = i
         · subst hki'; rw [hndi] at hk; simp at hk; subst hk
-          exfalso; simp_all
+          exfalso; simp_all [oldInflux]
         · simp; omega
       · intro k nd hk hki hj
         simp only [joinedBy, decide_eq_true_eq] at hj
         by_cases hki' : k = i
         · subst hki'; rw [hndi] at hk; simp at hk; subst hk
-          exfalso; simp_all
+          exfalso; simp_all [oldInflux]
         · exact hd.joinP k nd hk hki (by simp [hph, joinedBy]; omega)
       · intro j hj; simp [Ph.idx] at hj; subst hj; exact hidx
       all_goals (simp_all [Ph.idx, rank])
     cases hkind : ndi.kind with
-    | influx B =>
-      simp only [hkind] at h
-      split at h
-      · simp at h
-      · simp only [Option.some.injEq] at h; subst h
-        refine dinv_modify_at hd i (fun nd => { nd with deliv := nd.deliv + nd.buf, buf := 0 }) rfl (by intro nd; simp) ?_ ?_ ?_ ?_ ?_ rfl ?_ ?_ ?_ ?_ ?_
-        · intro nd hi
-          obtain ⟨h1, ab, fa, dn, fh, al, ah, ad, as, nh, ih, nl, nu, fd, bd⟩ := hd.nodes i nd hi
-          constructor <;> simp_all
-        · intro nd hi hk
-          have := hd.stopP i nd hi hk
-          simpa [hph, abortedBy] using this
-        · intro k hk; simp [hph, abortedBy]
-        · intro k; simp [hph, doneBy]
-        · intro k nd hk _ hj; simpa [hph, joinedBy] using hj
-        · simp [hph, rank]
-        · intro j hj; simp [Ph.idx] at hj; subst hj; exact hidx
-        · intro j nd hfl hj; simp at hfl; subst hfl; rw [hndi] at hj; simp at hj; subst hj; simp [hkind, isInflux]
-        · simp
-        · simp
+    | influx B => simp only [hkind, hea] at h; exact hother (by simp [hkind, isUdf]) (by simpa using h.symm)
     | udf =>
       simp only [hkind] at h
       simp only [Option.some.injEq] at h; subst h
@@ -570,19 +510,19 @@ theorem dinv_stopStep {cfg} {s s' : State} (h : stopStep cfg s = some s') (hd : 
       · intro k nd hk hki hj
         simp only [joinedBy, decide_eq_true_eq] at hj
         by_cases hki' : k = i
-        · subst hki'; rw [hndi] at hk; simp at hk; subst hk; simp [hkind, isInflux] at hki
+        · subst hki'; rw [hndi] at hk; simp at hk; subst hk; simp [oldInflux] at hki
         · simp [hph, joinedBy]; omega
       · simp [hph, rank]
       · intro j hj; simp [Ph.idx] at hj; subst hj; exact hidx
-      · intro j nd hfl; simp at hfl
+      · intro j; simp
       · simp
       · simp
-    | pass => simp only [hkind] at h; exact hother (by simp [hkind, isInflux]) (by simp [hkind, isUdf]) (by simpa using h.symm)
-    | post => simp only [hkind] at h; exact hother (by simp [hkind, isInflux]) (by simp [hkind, isUdf]) (by simpa using h.symm)
-    | alert H => simp only [hkind] at h; exact hother (by simp [hkind, isInflux]) (by simp [hkind, isUdf]) (by simpa using h.symm)
-    | fail K => simp only [hkind] at h; exact hother (by simp [hkind, isInflux]) (by simp [hkind, isUdf]) (by simpa using h.symm)
-    | loop => simp only [hkind] at h; exact hother (by simp [hkind, isInflux]) (by simp [hkind, isUdf]) (by simpa using h.symm)
-    | barrier d => simp only [hkind] at h; exact hother (by simp [hkind, isInflux]) (by simp [hkind, isUdf]) (by simpa using h.symm)
+    | pass => simp only [hkind] at h; exact hother (by simp [hkind, isUdf]) (by simpa using h.symm)
+    | post => simp only [hkind] at h; exact hother (by simp [hkind, isUdf]) (by simpa using h.symm)
+    | alert H => simp only [hkind] at h; exact hother (by simp [hkind, isUdf]) (by simpa using h.symm)
+    | fail K => simp only [hkind] at h; exact hother (by simp [hkind, isUdf]) (by simpa using h.symm)
+    | loop => simp only [hkind] at h; exact hother (by simp [hkind, isUdf]) (by simpa using h.symm)
+    | barrier d => simp only [hkind] at h; exact hother (by simp [hkind, isUdf]) (by simpa using h.symm)
 
 /-- Global actions that leave nodes and phase alone. -/
 theorem dinv_glob {s s' : State} (hd : DInv s) (hn : s'.nodes = s.nodes) (hph : s'.ph = s.ph)
@@ -597,7 +537,7 @@ theorem dinv_glob {s s' : State} (hd : DInv s) (hn : s'.nodes = s.nodes) (hph : 
   · intro k x hk; rw [hn] at hk; rw [hph]; exact hd.stopP k x hk
   · intro k x hk; rw [hn] at hk; rw [hph]; exact hd.joinP k x hk
   · intro j hj; rw [hn]; rw [hph] at hj; exact hd.idxV j hj
-  · intro j x hfl hk; rw [hn] at hk; rw [hph] at hfl; exact hd.flK j x hfl hk
+  · rw [hph]; exact hd.flK
   · rw [hph, hlk]; exact hd.lk
   · rw [hph, hets]; exact hd.ets
   · rw [hph]; exact fun h => hthr (hd.thr h)
@@ -605,10 +545,10 @@ theorem dinv_glob {s s' : State} (hd : DInv s) (hn : s'.nodes = s.nodes) (hph : 
 
 /-- **The protocol invariant is preserved by every action.** -/
 theorem dinv_step {cfg} {s s' : State} {a : Act} (h : step cfg s a = some s') (hleak : cfg.alertLeak = false)
-    (hd : DInv s) : DInv s' := by
+    (hea : cfg.influxEarlyAbort = false) (hd : DInv s) : DInv s' := by
   cases a with
-  | stop => exact dinv_stopStep h hd
-  | node i a => exact dinv_nodeAct h hleak hd
+  | stop => exact dinv_stopStep h hea hd
+  | node i a => exact dinv_nodeAct h hleak hea hd
   | write =>
     simp only [step] at h
     split at h
@@ -706,10 +646,7 @@ theorem dinv_step {cfg} {s s' : State} {a : Act} (h : step cfg s a = some s') (h
         | zero => simp at hk; subst hk; simpa using hd.joinP 0 nd h0 (by simpa using hkind) hj
         | succ k => rw [hs (k+1) (by omega)] at hk; exact hd.joinP _ x hk hkind hj
       · intro j hj; have := hd.idxV j hj; rw [hnodes] at this; simpa using this
-      · intro j x hfl hk
-        cases j with
-        | zero => simp at hk; subst hk; simpa using hd.flK 0 nd hfl h0
-        | succ j => rw [hs (j+1) (by omega)] at hk; exact hd.flK _ x hfl hk
+      · exact hd.flK
       · exact hd.lk
       · exact hd.ets
       · exact hd.thr
